@@ -9398,7 +9398,7 @@ func ruleNilReachesNoAbortingDefault(c *core.Ctx) {
 		canReturnNil[f] = res
 		return res
 	}
-	n := 0
+	n, scanned := 0, 0
 	for _, d := range c.AllDecls() {
 		if c.DeclPkg(d) != p || d.Body == nil || c.IsTestFile(d.Pos()) {
 			continue
@@ -9449,6 +9449,7 @@ func ruleNilReachesNoAbortingDefault(c *core.Ctx) {
 			if !abortingDefault {
 				return true
 			}
+			scanned++
 			if direct != nil {
 				n++
 				c.Check(hasNil, rule, fmt.Sprintf("%s/switch %s.(type)#%d", c.FuncName(d), types.ExprString(subj), n), ts.Pos(), "`case nil` present",
@@ -9496,7 +9497,10 @@ func ruleNilReachesNoAbortingDefault(c *core.Ctx) {
 			return true
 		})
 	}
-	if n == 0 {
-		c.Undecided(rule, "anchor/switch after a nil-returning call", 0, "no type switch with an aborting default over the result of a nil-returning function found in pkg/dsl")
+	// the rule is about the absence of a construct: what keeps it alive is the number of aborting type switches looked at
+	if scanned >= 10 {
+		c.OK(rule, "anchor/type switches scanned", 0, fmt.Sprintf("%d type switches with an aborting default scanned, %d over the result of a nil-returning function", scanned, n))
+	} else {
+		c.Undecided(rule, "anchor/type switches scanned", 0, fmt.Sprintf("only %d type switches with an aborting default found in pkg/dsl", scanned))
 	}
 }
